@@ -14,9 +14,31 @@ from .. import diff_gen as G
 PROPERTY = "C07"
 DRIVER = "drv_diff"
 THEOREMS = [
+    "C07.detect_partial",
+    "C07.detect_counterexample",
     "C07.type_family_detected",
+    "C07.default_change_detected",
+    "C07.changed_str",
+    "C07.detect_addTable",
+    "C07.detect_dropTable",
+    "C07.detect_addColumn",
+    "C07.detect_dropColumn",
+    "C07.detect_flipNullable",
+    "C07.detect_changeType",
+    "C07.detect_changeDefault",
+    "C07.detect_addIndex",
+    "C07.detect_dropIndex",
+    "C07.detect_changeIndex",
+    "C07.detect_addUnique",
+    "C07.detect_dropUnique",
+    "C07.detect_changeUnique",
+    "C07.detect_addFk",
+    "C07.detect_dropFk",
 ]
-PARTIAL = {}
+PARTIAL = {
+    "C07.detect_partial": "hypothesis SchemaOk cfg on the base schema (compared defaults plain, compared types reflect by name); without it the statement is refuted by detect_counterexample (F9: an untouched column with server_default=\"it's\" is reported next to any change)",
+    "C07.detect_changeDefault": "'the default changed' is the metadata-side normal form changedDefault (for string defaults: the values differ, changed_str; adding / removing a default always counts)",
+}
 TRUSTED = [
     "Model.Diff.ddlTy / reflTy / sqliteStore / createAll / reflect: my tables of SQLAlchemy's SQLite type compiler, SQLite's stored default text and the inspector; validated against the live inspector by C06 on every run",
     "Spec.Diff.Mutation / expected / touches: my reading of the documented catalogue of detectable changes (docs/build/autogenerate.rst) and of 'an operation of the corresponding kind naming that object'",
@@ -93,4 +115,55 @@ def check_witness(ctx, finding):
 
 def replay(ctx, case):
     inp = case["input"]
-    return {"note": "re-run with the stored base and mutation", "input": inp}
+    from .. import diff_schema as S
+    cands = {"a": inp["a"], "m": inp["m"]}
+    # rebuild m(A) through the Lean spec's own Mutation.apply is not needed: the generator stored the descriptor only,
+    # so re-derive B by applying the descriptor in Python
+    b = apply_descriptor(inp["a"], inp["m"])
+    new = _replay(ctx, {"a": inp["a"], "m": inp["m"], "b": b})
+    return {"failures": [{"what": f["what"], "finding": classify(f)} for f in new]}
+
+
+def apply_descriptor(a, m):
+    import copy
+    s = copy.deepcopy(a)
+    k = m["m"]
+    if k == "addTable":
+        s["tables"].append(m["table"])
+        return s
+    if k == "dropTable":
+        s["tables"] = [t for t in s["tables"] if t["name"] != m["t"]]
+        return s
+    t = next(t for t in s["tables"] if t["name"] == m["t"])
+    col = lambda: next(c for c in t["cols"] if c["name"] == m["c"])
+    if k == "addColumn":
+        t["cols"].append(m["col"])
+    elif k == "dropColumn":
+        t["cols"] = [c for c in t["cols"] if c["name"] != m["c"]]
+    elif k == "flipNullable":
+        col()["nullable"] = not col()["nullable"]
+    elif k == "changeType":
+        col()["ty"] = m["ty"]
+    elif k == "changeDefault":
+        col()["default"] = m["default"]
+    elif k == "addIndex":
+        t["ixs"].append(m["ix"])
+    elif k == "dropIndex":
+        t["ixs"] = [i for i in t["ixs"] if i["name"] != m["n"]]
+    elif k == "changeIndex":
+        for i in t["ixs"]:
+            if i["name"] == m["n"]:
+                i["cols"], i["unique"] = m["cols"], m["unique"]
+    elif k == "addUnique":
+        t["uqs"].append(m["uq"])
+    elif k == "dropUnique":
+        t["uqs"] = [i for i in t["uqs"] if i["name"] != m["n"]]
+    elif k == "changeUnique":
+        for i in t["uqs"]:
+            if i["name"] == m["n"]:
+                i["cols"] = m["cols"]
+    elif k == "addFK":
+        t["fks"].append(m["fk"])
+    elif k == "dropFK":
+        t["fks"] = [i for i in t["fks"] if i["name"] != m["n"]]
+    return s
